@@ -11,6 +11,181 @@ Z3_TIMEOUT_MS = int(os.environ.get("QVC_Z3_TIMEOUT_MS", "20000"))
 _OBS = []
 
 
+def skolemize_goal(goal):
+    """strip leading universal quantifiers of the goal (also under `A -> forall..` and conjunctions are left
+    alone); returns (goal', skolem constants)"""
+    sks = []
+    while z3.is_quantifier(goal) and goal.is_forall():
+        vs = [z3.FreshConst(goal.var_sort(i), "sk") for i in range(goal.num_vars())]
+        sks.extend(vs)
+        goal = z3.substitute_vars(goal.body(), *reversed(vs))
+    return goal, sks
+
+
+def _int_consts(t, limit=8):
+    out, seen, stack = [], set(), [t]
+    while stack and len(out) < limit:
+        x = stack.pop()
+        if x.get_id() in seen:
+            continue
+        seen.add(x.get_id())
+        if z3.is_quantifier(x):
+            stack.append(x.body())
+        elif z3.is_app(x):
+            if x.num_args() == 0 and x.decl().kind() == z3.Z3_OP_UNINTERPRETED and x.sort() == z3.IntSort():
+                out.append(x)
+            stack.extend(x.children())
+    return out
+
+
+def manual_instances(hyps, goal, sks):
+    """instances of universally quantified hypotheses at the goal's skolem constants and free integer constants.
+    Needed because bound variables that occur only under a lambda (row sums, traces) give the solver no
+    E-matching pattern; every instance is a logical consequence of its hypothesis, so this is sound."""
+    cands = list(sks) + [c for c in _int_consts(goal) if not any(c.eq(s_) for s_ in sks)]
+    cands = [c for c in cands if c.sort() == z3.IntSort()][:6]
+    out = []
+    if not cands:
+        return out
+    import itertools
+    for h in hyps:
+        if not (z3.is_quantifier(h) and h.is_forall()):
+            continue
+        n = h.num_vars()
+        if n > 2 or any(h.var_sort(i) != z3.IntSort() for i in range(n)):
+            continue
+        for tup in itertools.product(cands, repeat=n):
+            out.append(z3.substitute_vars(h.body(), *reversed(tup)))
+            if len(out) > 200:
+                return out
+    return out
+
+
+# --------------------------------------------------------------------------------------------------
+# concretised refutation search (DESIGN section 5): sizes fixed to small numerals, sums and range-bounded
+# quantifiers unrolled.  Only ever produces *candidate* counter-models that the driver replays natively.
+
+def _numeral(t):
+    t = z3.simplify(t)
+    return t.as_long() if z3.is_int_value(t) else None
+
+
+def expand_concrete(t, cache, positive=True, span=4):
+    k = (t.get_id(), positive)
+    if k in cache:
+        return cache[k]
+    r = _expand(t, cache, positive, span)
+    cache[k] = r
+    return r
+
+
+def _range_guard(body):
+    """for  (lo<=q & q<hi) -> B  bodies (as printed by the clause evaluator) nothing special is needed: the guard
+    simply evaluates to false outside the range after instantiation"""
+    return body
+
+
+def _expand(t, cache, positive, span):
+    if z3.is_quantifier(t):
+        if t.is_lambda():
+            return t
+        n = t.num_vars()
+        if any(t.var_sort(i) != z3.IntSort() for i in range(n)) or n > 3:
+            return z3.BoolVal(True) if (t.is_forall() == positive) else z3.BoolVal(True)
+        import itertools
+        insts = []
+        for tup in itertools.product(range(-1, span + 1), repeat=n):
+            b = z3.substitute_vars(t.body(), *reversed([z3.IntVal(x) for x in tup]))
+            insts.append(expand_concrete(z3.simplify(b), cache, positive, span))
+        return z3.And(*insts) if t.is_forall() else z3.Or(*insts)
+    if not z3.is_app(t):
+        return t
+    d = t.decl()
+    if d.name() == "u_sum" and t.num_args() == 3:
+        lo, hi = _numeral(t.arg(1)), _numeral(t.arg(2))
+        F = t.arg(0)
+        if lo is not None and hi is not None and hi - lo <= 8:
+            terms = []
+            for k in range(lo, hi):
+                c = z3.simplify(z3.Select(F, z3.IntVal(k)))
+                terms.append(expand_concrete(c, cache, positive, span))
+            return z3.Sum(terms) if terms else z3.RealVal(0)
+        return t
+    kind = d.kind()
+    if kind == z3.Z3_OP_NOT:
+        return z3.Not(expand_concrete(t.arg(0), cache, not positive, span))
+    if kind == z3.Z3_OP_IMPLIES:
+        return z3.Implies(expand_concrete(t.arg(0), cache, not positive, span),
+                          expand_concrete(t.arg(1), cache, positive, span))
+    if t.num_args() == 0:
+        return t
+    args = [expand_concrete(c, cache, positive, span) for c in t.children()]
+    try:
+        return d(*args)
+    except Exception:      # noqa
+        return t
+
+
+def concretised_candidate(ob, leaves, sizes, timeout_ms=8000):
+    if not sizes:
+        return None
+    for n in (2, 3):
+        sub = [(sz, z3.IntVal(n)) for sz in sizes]
+        cache = {}
+        s = z3.Solver()
+        s.set("timeout", timeout_ms)
+        try:
+            for h in ob.hyps:
+                s.add(expand_concrete(z3.simplify(z3.substitute(h, *sub)), cache, True, n))
+            g = expand_concrete(z3.simplify(z3.substitute(ob.goal, *sub)), cache, True, n)
+            s.add(z3.Not(g))
+            for sz in sizes:
+                s.add(sz == n)
+        except z3.Z3Exception:
+            continue
+        if s.check() == z3.sat:
+            return extract_model(s.model(), leaves)
+    return None
+
+
+def size_symbols(leaves):
+    """integer constants used as array shapes / list lengths of the symbolic inputs"""
+    from .values import SymArr, SymList, Obj
+    out = {}
+
+    def visit(x, depth=0):
+        if isinstance(x, SymArr):
+            for d in x.shape:
+                if z3.is_expr(d) and z3.is_const(d) and d.decl().kind() == z3.Z3_OP_UNINTERPRETED:
+                    out[d.get_id()] = d
+        elif isinstance(x, SymList):
+            d = x.length
+            if z3.is_expr(d) and z3.is_const(d) and d.decl().kind() == z3.Z3_OP_UNINTERPRETED:
+                out[d.get_id()] = d
+        elif isinstance(x, Obj) and depth < 3:
+            for v in x.fields.values():
+                visit(v, depth + 1)
+    for v in (leaves or {}).values():
+        visit(v)
+    return list(out.values())
+
+
+def _mentions_decl(terms, name):
+    stack, seen = list(terms), set()
+    while stack:
+        x = stack.pop()
+        if x.get_id() in seen:
+            continue
+        seen.add(x.get_id())
+        if z3.is_quantifier(x):
+            stack.append(x.body())
+        elif z3.is_app(x):
+            if x.decl().name() == name:
+                return True
+            stack.extend(x.children())
+    return False
+
+
 def _solve(idx):
     ob, extra_axioms, leaves = _OBS[idx]
     t0 = time.time()
@@ -18,9 +193,14 @@ def _solve(idx):
     s.set("timeout", Z3_TIMEOUT_MS)
     for h in ob.hyps:
         s.add(h)
-    for a in extra_axioms:
-        s.add(a)
-    goal = ob.goal
+    use_axioms = bool(extra_axioms) and _mentions_decl(list(ob.hyps) + [ob.goal], "u_sum")
+    if use_axioms:
+        for a in extra_axioms:
+            s.add(a)
+    goal, sks = skolemize_goal(ob.goal)
+    insts = manual_instances(ob.hyps, goal, sks)
+    for inst in insts:
+        s.add(inst)
     s.add(z3.Not(goal))
     r = s.check()
     dt = time.time() - t0
@@ -35,6 +215,29 @@ def _solve(idx):
     v2 = cvc5_check(smt2)
     if v2 == "unsat":
         return idx, "proved", None, time.time() - t0, "cvc5", None
+    # relaxation: quantified hypotheses/axioms replaced by their manual instances.  A model of the relaxation is only
+    # a *candidate* counter-model; the driver replays it natively and reports a violation only if the real code
+    # violates the property on it.
+    s2 = z3.Solver()
+    s2.set("timeout", Z3_TIMEOUT_MS // 2)
+    for h in ob.hyps:
+        if not _has_quantifier(h):
+            s2.add(h)
+    for inst in insts:
+        if not _has_quantifier(inst):
+            s2.add(inst)
+    if not _has_quantifier(goal):
+        s2.add(z3.Not(goal))
+        if s2.check() == z3.sat:
+            return (idx, "candidate", extract_model(s2.model(), leaves), time.time() - t0, "z3",
+                    "z3: %s; cvc5: %s; counter-model of the quantifier-free relaxation" % (reason, v2))
+    try:
+        cm = concretised_candidate(ob, leaves, size_symbols(leaves))
+    except Exception as e:      # noqa
+        cm = None
+    if cm is not None:
+        return (idx, "candidate", cm, time.time() - t0, "z3",
+                "z3: %s; cvc5: %s; counter-model of the concretised obligation (sizes 2..3, sums unrolled)" % (reason, v2))
     return idx, "undecided", None, time.time() - t0, "z3", "z3: %s; cvc5: %s" % (reason, v2)
 
 
@@ -142,6 +345,51 @@ def discharge(obligations, extra_axioms=(), leaves=None, workers=None):
         ob.verdict, ob.model, ob.seconds, ob.backend = verdict, model, dt, backend
         ob.reason = reason
     _OBS = []
+
+
+_VAC = []
+
+
+def _vac_one(i):
+    hyps, goal, full, extra = _VAC[i]
+    if not full:
+        hyps = [h for h in hyps if not _has_quantifier(h)]
+        extra = []
+    r = check_sat(hyps, extra, 10000 if full else 2000)
+    r2 = "n/a"
+    if r != "unsat" and goal is not None and (full or not _has_quantifier(goal)):
+        r2 = check_sat(list(hyps) + [goal], extra, 10000 if full else 2000)
+    return r, r2
+
+
+def _has_quantifier(t):
+    stack, seen = [t], set()
+    while stack:
+        x = stack.pop()
+        if x.get_id() in seen:
+            continue
+        seen.add(x.get_id())
+        if z3.is_quantifier(x):
+            if not x.is_lambda():
+                return True
+            stack.append(x.body())
+        elif z3.is_app(x):
+            stack.extend(x.children())
+    return False
+
+
+def vacuity(items, full=False, extra=()):
+    """items: [(hyps, goal)] -> [(hyps sat?, hyps+goal sat?)]; quick tier checks the quantifier-free part of the
+    hypotheses (a contradiction there is what a wrong `requires` produces), thorough tier the whole set"""
+    global _VAC
+    _VAC = [(h, g, full, list(extra)) for h, g in items]
+    if not _VAC:
+        return []
+    ctx = mp.get_context("fork")
+    with ctx.Pool(min(16, len(_VAC))) as pool:
+        out = pool.map(_vac_one, range(len(_VAC)), chunksize=1)
+    _VAC = []
+    return out
 
 
 def check_sat(hyps, extra=(), timeout_ms=5000):
